@@ -174,6 +174,32 @@ def run():
                 ck.fail("walker-rejects-pixel-document", c01.jcase(case), info, "RLE row tables sum to the channel data", case=c01.jcase(case))
             else:
                 ck.nontriv(h63_list(0, list(r["bytes"])))
+        # ---- (b1) one wide incompressible 32-bit row: its RLE byte count does not fit the 2-byte row table of a version-1 file;
+        #      the library must refuse (OverflowError) or write a table a reader of that version can sum
+        from psd_tools.compression import compress as _compress
+
+        for i, w in enumerate([16383, 16400] if not thorough else [16383, 16384, 16390, 16400]):
+            for v in (1, 2):
+                raw = bytes(rng.randrange(256) for _ in range(w * 4))
+                try:
+                    enc_row = _compress(raw, 1, w, 1, 32, v)
+                except OverflowError:
+                    ck.count("doc:wide-row-refused-v%d" % v)
+                    continue
+                header = [F.SIG_8BPS, v, 1, 1, w, 32, 1]
+                rec = F.g_rec(rng, "macroman", nch=1)
+                rec[0], rec[1], rec[2], rec[3], rec[4], rec[10] = 0, 0, 1, w, [[0, 0]], None
+                d = [header, b"", [], [[1, [rec], [[[1, enc_row]]]], [None, 0, 128], []], [1, enc_row]]
+                case = ("psd", {"version": v, "padding": 4, "encoding": "macroman"}, d)
+                r = F.run_impl(case, exc_code)
+                if r["bytes"] is None:
+                    continue
+                ck.count("doc:wide-row-v%d" % v)
+                wo, info = walk_out(r["bytes"], check_rle=True)
+                if wo == [1]:
+                    ck.fail("walker-rejects-wide-row-document", {"version": v, "width": w, "depth": 32, "rows": 1, "compression": "RLE",
+                                                                 "encoded_row_bytes": len(enc_row)},
+                            info, "the RLE row table, read with the count width of the file's version, sums to the channel data")
         # ---- (b2) 16/32-bit documents: the layers live in a Lr16 / Lr32 block (LayerInfoBlock), channel lengths stale at write time
         for i in range(1200 if thorough else 150):
             case = F.g_lr_case(rng, [1, 2][i % 2], [1, 2, 4][i % 3])
